@@ -1,5 +1,6 @@
 """Conformance cases: real repository functions executed natively and by the symbolic executor on the same concrete inputs
 (see qvc/conform.py).  Grouped by the properties whose trusted base they exercise."""
+from qvc.run import REPO as _REPO
 import z3
 
 from contracts import packed as CP
@@ -79,7 +80,7 @@ def cases(tags, seed):
     if "awq" in tags:
         import re
         import types
-        src = open("/repo/optimum/quanto/tensor/qbits/awq/packed.py").read()
+        src = open(_REPO + "/optimum/quanto/tensor/qbits/awq/packed.py").read()
         kept = "\n".join(ln for ln in src.split("\n") if not re.match(r'\s*assert .*device\.type == "cuda"\s*$', ln))
         P = types.ModuleType("awq_packed_cpu")
         exec(compile(kept, "awq/packed.py", "exec"), P.__dict__)
